@@ -270,6 +270,10 @@ func (r *Run) Fail(rule, caseID, detail string, triggers []string, replay any) {
 		}
 	}
 	r.res.ViolationsN++
+	if os.Getenv("VERIF_DEBUG") != "" && r.res.ViolationsN == 1 {
+		b, _ := json.MarshalIndent(replay, "", " ")
+		fmt.Printf("REPLAY %s\n", b)
+	}
 	if len(r.res.Violations) < maxViolations {
 		if len(detail) > 4000 {
 			detail = detail[:4000] + "…"
